@@ -21,11 +21,26 @@ theorem C11_capacity_bounded (dec : Bytes → Bool) (bufferSize maxBufferSize : 
     s.w.front.cap ≤ max bufferSize maxBufferSize ∧ s.w.back.cap ≤ max bufferSize maxBufferSize ∧
     s.r.front.cap ≤ max bufferSize maxBufferSize ∧ s.r.back.cap ≤ max bufferSize maxBufferSize := by
   have h := run_sysStep dec (Sys.new bufferSize maxBufferSize) ops (sysWF_new _ _)
-  exact ⟨h.w.frontCap, h.w.backCap, h.r.frontCap, h.r.backCap⟩
+  have e1 : (Sys.new bufferSize maxBufferSize).w.max = max maxBufferSize bufferSize := rfl
+  have e2 : (Sys.new bufferSize maxBufferSize).r.max = max maxBufferSize bufferSize := rfl
+  have c1 : (Sys.new bufferSize maxBufferSize).w.front.cap = bufferSize := rfl
+  have c2 : (Sys.new bufferSize maxBufferSize).w.back.cap = bufferSize := rfl
+  have c3 : (Sys.new bufferSize maxBufferSize).r.front.cap = bufferSize := rfl
+  have c4 : (Sys.new bufferSize maxBufferSize).r.back.cap = bufferSize := rfl
+  have h1 := h.w.frontCap; have h2 := h.w.backCap; have h3 := h.r.frontCap; have h4 := h.r.backCap
+  rw [e1, c1] at h1; rw [e1, c2] at h2; rw [e2, c3] at h3; rw [e2, c4] at h4
+  refine ⟨?_, ?_, ?_, ?_⟩ <;> omega
 
 -- the bound is reached: a 158-byte frame makes the reader's 100-byte buffer grow to the ceiling
 example : (run (fun _ => true) (Sys.new 100 200)
     [.write (List.replicate 150 7), .flush [usizeMax], .deliver 158, .readable]).1.r.front.cap = 200 := by
+  decide +kernel
+
+-- regression (ceiling clamp in `Channel::new`): with buffer_size 200 > max_buffer_size 100 a
+-- 150-byte frame accepted by the writer is delivered by the reader (it used to be refused for ever)
+example : (run (fun _ => true) (Sys.new 200 100)
+    [.write (List.replicate 142 7), .flush [usizeMax], .deliver 150, .readable, .read]).2
+    = [.unit, .count 150, .count 150, .count 150, .msg (List.replicate 142 7)] := by
   decide +kernel
 
 /-- No out-of-bounds access and no `usize` underflow: in every reachable state
@@ -46,7 +61,7 @@ example : (run (fun _ => true) (Sys.new 100 200)
 
 /-! ### malformed frames are errors -/
 
-/-- A declared length above the ceiling is `MessageTooLarge` (nothing is
+/-- (after the F9/F10 fix) A declared length above the ceiling is `MessageTooLarge` (nothing is
     buffered or grown for it), a declared length under the prefix size is
     `MessageLengthUnderDelimiter` and costs exactly the 8 prefix bytes, a
     complete frame whose payload prost rejects is `InvalidProtobufMessage`:
@@ -60,7 +75,8 @@ theorem C11_bad_prefix_is_error (dec : Bytes → Bool) (c : Chan) (h : ChanWF c)
       (c.readMessage dec).1.front.data = c.front.data.drop delim) ∧
     (len ≤ c.max → delim ≤ len → len ≤ c.front.data.length →
       dec ((c.front.data.take len).drop delim) = false →
-      c.readMessage dec = (c, .error .invalid)) := by
+      (c.readMessage dec).2 = .error .invalid ∧
+      (c.readMessage dec).1.front.data = c.front.data.drop len) := by
   obtain ⟨_, _, hd, hr, hc⟩ := readMessage_cases dec c h
   have hpair : c.readMessage dec = ((c.readMessage dec).1, (c.readMessage dec).2) := rfl
   simp only []
@@ -90,12 +106,9 @@ theorem C11_bad_prefix_is_error (dec : Bytes → Bool) (c : Chan) (h : ChanWF c)
       rcases hinc with hinc | ⟨_, a, _⟩ <;> omega
   · intro hle hlo hhi hdec
     generalize hx : c.tryRead dec = x at hc
+    rw [hr, hd, hx]
     cases hc with
-    | invalid c' len _ hlen _ _ _ _ hsame =>
-      have h1 : (c.readMessage dec).2 = .error .invalid := by rw [hr, hx]; rfl
-      have h2 : (c.readMessage dec).1 = c := by
-        simp only [Chan.readMessage, hx]; exact hsame
-      rw [hpair, h1, h2]
+    | invalid c' len _ hlen _ _ _ _ hdata => exact ⟨rfl, by rw [hdata, hlen]⟩
     | msg c' len _ hlen _ _ _ hdec' =>
       subst hlen; rw [hdec] at hdec'; cases hdec'
     | under c' len _ hlen hlt => omega
@@ -208,53 +221,53 @@ example : (run (fun _ => true) (Sys.new 100 200)
     = [.count 18, .count 18, .count 18, .err (.under 5), .msg [9, 9]] := by
   decide +kernel
 
-/-- `BufferFull` cannot happen on a well-formed stream when the reader's
-    consumed prefix has been shifted out (`position = 0`): a buffer that is
-    full at the ceiling then holds the whole head frame. The hypothesis
-    `pos = 0` is what the code fails to establish (F10, next theorem). -/
-theorem C11_no_wedge_bufferfull_partial (dec : Bytes → Bool) (c : Chan) (T p R : Bytes)
-    (h : ChanWF c) (hpos : c.front.pos = 0) (hs : c.front.data ++ T = frame p ++ R)
+/-- After `InvalidProtobufMessage` the channel is not wedged either (F9 fixed):
+    the undecodable frame is gone and the next complete frame is returned. -/
+theorem C11_no_wedge_undecodable (dec : Bytes → Bool) (c : Chan) (q p R : Bytes) (h : ChanWF c)
+    (hq : dec q = false) (hql : q.length + delim ≤ usizeMax) (hqm : q.length + delim ≤ c.max)
+    (hs : c.front.data = frame q ++ (frame p ++ R)) (hg : Good dec p) (hmax : p.length + delim ≤ c.max) :
+    (c.readMessage dec).2 = .error .invalid ∧ ((c.readMessage dec).1.readMessage dec).2 = .ok p := by
+  have hlen : q.length + delim ≤ c.front.data.length := by
+    rw [hs, List.length_append, frame_length]; omega
+  have h8 : delim ≤ c.front.data.length := by omega
+  have hs' : c.front.data ++ [] = frame q ++ (frame p ++ R) := by rw [List.append_nil]; exact hs
+  have hl := head_len' _ _ _ _ hs' h8 hql
+  obtain ⟨ht, hdrop⟩ := head_complete _ _ _ _ hs' hlen
+  rw [List.append_nil] at hdrop
+  obtain ⟨_, _, hi⟩ := C11_bad_prefix_is_error dec c h h8
+  simp only [hl] at hi
+  obtain ⟨e1, e2⟩ := hi hqm (by omega) hlen (by rw [ht, frame_drop]; exact hq)
+  obtain ⟨hstep, _, _⟩ := readMessage_cases dec c h
+  refine ⟨e1, ?_⟩
+  exact (read_complete dec _ p R (hstep.wf h) (by rw [e2, hdrop]) hg (by rw [hstep.max_eq]; exact hmax)).1
+
+theorem C11_no_wedge_undecodable_witness :
+    (run (fun p => p != List.replicate 10 255) (Sys.new 1000 2000)
+      [.raw (frame (List.replicate 10 255)), .raw (frame [10, 1, 55, 18, 0]), .deliver 31, .readable,
+       .read, .read, .drain 20]).2
+    = [.count 18, .count 13, .count 31, .count 31, .err .invalid, .msg [10, 1, 55, 18, 0],
+       .drained [] .nothingRead] := by
+  decide +kernel
+
+/-- `BufferFull` cannot happen on a well-formed stream whose head frame fits
+    the ceiling (F10 fixed: the consumed prefix is shifted out before giving up). -/
+theorem C11_no_wedge_bufferfull (dec : Bytes → Bool) (c : Chan) (T p R : Bytes)
+    (h : ChanWF c) (hs : c.front.data ++ T = frame p ++ R)
     (hg : Good dec p) (hmax : p.length + delim ≤ c.max) :
     (c.readMessage dec).2 ≠ .error .bufferFull := by
   intro hr
-  obtain ⟨hsp, hcap, hinc⟩ := bufferFull_shape dec c h hr
-  obtain ⟨h1, h2, h3⟩ := h.1
-  simp only [Buffer.availSpace] at hsp
-  have hlen : c.max ≤ c.front.data.length := by omega
+  obtain ⟨hlen, hinc⟩ := bufferFull_shape dec c h hr
   rcases hinc with hinc | ⟨_, hinc⟩
   · simp only [delim] at *; omega
   · rw [head_len' _ _ _ _ hs (by simp only [delim] at *; omega) hg.2] at hinc
     omega
 
-example : (run (fun _ => true) (Sys.new 100 100)
-    [.write (List.replicate 62 66), .flush [usizeMax], .deliver 70, .readable]).1.r.front.pos = 0 := by
-  decide +kernel
-
-/-- F10 (genuine defect, confirmed on the real code): `Channel::new(_, 100, 100)`,
-    frames of 40 and 70 bytes, the first 100 bytes delivered at once. The
-    40-byte message is returned, its bytes stay unshifted (`position = 40 ≤
-    capacity/2`), the buffer is full at the ceiling and the 70-byte frame
-    (≤ max) can never be completed: `BufferFull` for ever, also under the
-    fair schedule. -/
-theorem C11_no_wedge_counterexample_bufferfull :
+theorem C11_no_wedge_bufferfull_witness :
     (run (fun _ => true) (Sys.new 100 100)
       [.write (List.replicate 32 65), .flush [usizeMax], .write (List.replicate 62 66), .flush [usizeMax],
        .deliver 100, .readable, .read, .read, .deliver 10, .readable, .read, .drain 20]).2
     = [.unit, .count 40, .unit, .count 70, .count 100, .count 100, .msg (List.replicate 32 65),
-       .err .bufferFull, .count 10, .err .conn, .err .bufferFull, .drained [] .bufferFull] := by
-  decide +kernel
-
-/-- F9 (genuine defect, confirmed on the real code): `Channel::new(_, 1000, 2000)`,
-    a well-delimited frame (length 18) whose payload (10 x 0xFF) prost rejects,
-    followed by a good frame. The undecodable frame is never consumed: every
-    later `read_message` returns `InvalidProtobufMessage`, the good frame is
-    never delivered, also under the fair schedule. -/
-theorem C11_no_wedge_counterexample_undecodable :
-    (run (fun p => p != List.replicate 10 255) (Sys.new 1000 2000)
-      [.raw (frame (List.replicate 10 255)), .raw (frame [10, 1, 55, 18, 0]), .deliver 31, .readable,
-       .read, .read, .drain 20]).2
-    = [.count 18, .count 13, .count 31, .count 31, .err .invalid, .err .invalid,
-       .drained [] .invalid] := by
+       .err .nothingRead, .count 10, .count 10, .msg (List.replicate 62 66), .drained [] .nothingRead] := by
   decide +kernel
 
 /-- A complete frame whose declared length exceeds the ceiling (201 > 200)
